@@ -1702,7 +1702,7 @@ fn main() {
   // ---- B. seeded random tables (with replacement of handlers) x random lists x every completion order
   // below 10% scale (Miri / sanitizer samples) the random parts shrink five- to eightfold more: interpreters are ~1000x slower
   let tiny = scale < 100;
-  let n_tables = sc(if tiny { 800 } else if thorough { 160_000 } else { 4_000 }) / args.nshards.max(1) + 1;
+  let n_tables = sc(if tiny { 800 } else if thorough { 640_000 } else { 4_000 }) / args.nshards.max(1) + 1;
   let lists_per_table = if scale < 1000 { 2 } else { 6 };
   let max_len = if thorough { 7 } else { 5 };
   let mut pair_idx = 0u64;
@@ -1734,12 +1734,12 @@ fn main() {
   }
 
   // ---- C. did:jwk
-  let n_jwk = sc(if tiny { 2_000 } else if thorough { 400_000 } else { 16_000 }) / args.nshards.max(1) + 9;
+  let n_jwk = sc(if tiny { 2_000 } else if thorough { 1_200_000 } else { 16_000 }) / args.nshards.max(1) + 9;
   cx.jwk_section(&args, &mut rng, n_jwk);
 
   // ---- D. the Send + Sync resolver driven from several threads
   if threads_on {
-    let rounds = sc(if tiny { 100 } else if thorough { 4_000 } else { 200 }) / args.nshards.max(1) + 1;
+    let rounds = sc(if tiny { 100 } else if thorough { 16_000 } else { 200 }) / args.nshards.max(1) + 1;
     for _ in 0..rounds {
       cx.threaded_round(&mut rng, if scale < 1000 { 2 } else { 4 });
     }
